@@ -109,6 +109,16 @@ class HistoryRunner:
                                   f"{spec['fn']} returns a result different from a fresh interpreter's after {len(self.history) - 1} earlier steps "
                                   f"({kind}); spec {json.dumps(spec)[:160]}; got {json.dumps(got)[:160]} expected {json.dumps(self.ref[i])[:160]}"))
         if raw is not None:
+            # the caller goes on using ITS objects (reuses the qubit list, extends the circuit, ...): the result must not follow
+            try:
+                touched = c13lib.scramble_inputs(inp)
+                again = {"ok": c13lib.canon(raw)}
+            except Exception as e:  # noqa: BLE001
+                touched, again = [], got
+            if again != got:
+                self.problems.append((f"result-aliases-input:{spec['fn']}",
+                                      f"{spec['fn']}: the returned object changes when the caller afterwards modifies its own argument(s) {touched} "
+                                      f"(result aliases an input); spec {json.dumps(spec)[:160]}"))
             self.results.append((i, raw))
         return got
 
